@@ -44,6 +44,20 @@ CLAIMED = {
             "7 embeddings; under inexact embeddings a module sharing an edge with a cell may be listed with ratio 0 (last-bit overlap); "
             "completely blocked dies and dies/netlists rejected at load are outside",
             "DESIGN.md 4 (C03)", ["Geometry", "DieOps", "AllocOps", "InitAlloc", "InitAllocTrace"]),
+    "C09": ("TLA+ spec Legal (legality clauses from the statement + the legaliser's equation groups transcribed from legalfloor.py) "
+            "model-checked by TLC: 'system met <=> legal' as an invariant over bounded universes, incl. an as-coded model that must fail; "
+            "TLC-generated netlists with their legal / single-clause-violating configurations replayed on the real tools.legalfloor Model "
+            "(no solve, slack annealed to 0, Equation.is_equation_met) under int + 5 float embeddings and two listing orders; answers "
+            "trace-validated by TLC (LegalTrace); seeded random driver with larger dies and rational ratio limits",
+            "Every netlist of the bounded universes (1-3 single-trunk-orthogon modules, trunk + <= 2 branches, soft/hard/fixed; dies 8x8, 9x8, "
+            "10x10; ratio limits 2 and 3) and, per netlist, the input configuration and every single-edit neighbour that is legal or falsifies "
+            "exactly one legality clause by >= 1 lattice unit is enumerated by TLC; 'all equations met <=> legal' is a TLC invariant of the "
+            "transcribed system and is judged by TLC on every answer of the real equation objects; random larger cases follow the same path.",
+            "bounded catalogues (exhaustive within them), random to 30x30 dies / 4 modules / 3 branches; floats sampled by 6 embeddings with unit "
+            ">= 0.1 (the system's tolerances 1e-6, w,h >= 0.1 and tau are absolute: tiny dies outside the claim); observation = is_equation_met "
+            "at epsilon 0 for all groups except radius / Exact Value (solver and GEKKO variable bounds not exercised); hard congruence = "
+            "translation only; unambiguous STOGs only",
+            "DESIGN.md 4 (C09)", ["Legal", "LegalTrace"]),
     "C10": ("TLA+ spec GlbFloor (InitAlloc/Optimize/Extract/Refine/Stop) model-checked by TLC with Optimize = any solution of the modelled "
             "constraints; TLC-generated parameter combinations expanded from the repository's glbfloor examples plus seeded random instances "
             "run through glbfloor under 7 embeddings, snapshots after every step trace-validated by TLC (GlbFloorTrace); TLC-enumerated "
@@ -122,6 +136,18 @@ CLAIMED = {
             "bounded lattice (4x4 exhaustive, random to 60x60); floats sampled by 8 embeddings; the open sliver band of "
             "x/y_cuttable and last-bit ties of exact comparisons under inexact embeddings are left free as the statement does",
             "DESIGN.md 4 (C18)", ["Geometry", "GeometryOps", "GeometryTrace"]),
+    "C19": ("TLA+ spec Docs (abstract objects, documents and readers for DIEF / allocation / FPEF, generator topologies with Defined, FloorSet "
+            "conversion, rect and legaliser netlists; one action per producer) model-checked by TLC; every TLC-emitted object produced twice by "
+            "the real producer and read back by the real reader under float embeddings; observations trace-validated by TLC (DocsTrace)",
+            "TLC enumerates every object of a bounded universe per producer and proves accepted / same design / repeat for the intended writers "
+            "and acceptance = Defined for the generator; each object is written twice by the real die and allocation writers, netgen, the "
+            "FloorSet converter, rect_io and the legaliser, read back by the real reader, and TLC judges acceptance, field-by-field equality, "
+            "the object being unaltered and the two documents being identical; random larger objects follow the same path.",
+            "bounded: dies 4x3 with <= 2 regions, allocations of <= 3 cells (before / after refine, griddify, uniform), generator sizes to 8 "
+            "(grid 4x4, h-tree 3; random to 40 / 8x8 / 4), FloorSet instances of <= 2 blocks (random to 5), netlists of <= 3 modules (random to "
+            "6); 2-3 float embeddings per object; numbers compared at 1/1000 lattice unit; legaliser models unsolved; region tags of module "
+            "rectangles and listing order are model conformance only; known finding: the legaliser drops flip",
+            "DESIGN.md 4 (C19)", ["Docs", "DocsTrace"]),
     "C20": ("TLA+ spec Process (process-wide registers: Rectangle tolerance, ROBDD store, legaliser globals; one action per library "
             "operation) model-checked by TLC; TLC-generated histories executed in forked interpreters; digests and register logs "
             "trace-validated by TLC (ProcessTrace)",
